@@ -30,8 +30,12 @@ def run(ctx):
     ctx.rule('C08.d-wrappers-forward', 'supports/new/reset of ReedSolomon{En,De}coder only forward to the default rate: the wrappers answer from the same predicate and their constructors agree with it (clause shared with C09.c)')
     from . import c09
     ctx.guard('C08.analysable', ctx.shared, {'C09.c-delegation': 'C08.d-wrappers-forward'}, c09.check, ctx, ctx.facts(cfgs[0]), cfgs[0])
+    ctx.rule('C08.e-space-for-every-position', 'the decoder sizes its received bitmap from the configuration — max(original_base_pos + original_count, recovery_base_pos + recovery_count) — so that every position of every supported configuration, up to the edge of the envelope, can be marked')
+    ctx.rule('C08.f-table-passes-cover-the-table', 'a loop that rewrites a fixed-size table in place element by element (t[i] = f(t[i])) runs over the whole table, 0..len: the last entries are read only by configurations at the edge of the envelope')
     for cfg in cfgs:
         facts = ctx.facts(cfg)
+        ctx.guard('C08.analysable', bitmap_covers, ctx, facts, cfg)
+        ctx.guard('C08.analysable', table_passes_cover, ctx, facts, cfg)
         ctx.guard('C08.analysable', one_definition, ctx, facts, cfg)
         ctx.guard('C08.analysable', validate_table, ctx, facts, cfg)
         ctx.guard('C08.analysable', constructors, ctx, facts, cfg)
@@ -302,3 +306,136 @@ def fmt_leaf(x):
     if x[0] == 'pred':
         return '%s(%s)' % (core.short(x[1]), ', '.join(core.show(a) for a in x[2]))
     return '%s:%s' % (x[0], ':'.join(str(y) for y in x[1:]))
+
+
+def bitmap_covers(ctx, facts, cfg):
+    from . import roles as roles_mod
+    R = 'C08.e-space-for-every-position'
+    RL = roles_mod.roles(facts)
+    rp = RL.get(ctx, 'dec.reset', R, cfg)
+    if rp is None:
+        return
+    fn = core.inlined_fn(facts, rp.path, core.self_helper(rp.impl_self_adt))
+    body = fn.body
+    grows = [(b, t) for b, t in body.calls() if re.search(r'^fixedbitset::FixedBitSet::(grow|grow_and_insert)$', t['callee'].get('path') or '')]
+    if not grows:
+        ctx.violation(R, 'no-grow', '%s never grows the received bitmap' % rp.path, site=rp.span, fn=rp.path, cfg=cfg)
+        return
+
+    def names(c, out):
+        if isinstance(c, tuple):
+            if c and c[0] in ('param', 'var') and isinstance(c[1], str):
+                out.add(c[1])
+            elif c and c[0] == 'field' and isinstance(c[2], str):
+                out.add(c[2])
+                names(c[1], out)
+            else:
+                for x in c:
+                    names(x, out)
+        return out
+
+    def sums(c, out):
+        """name sets of the additions occurring in c"""
+        if isinstance(c, tuple):
+            if c and c[0] == 'checked':
+                return sums(c[1], out)
+            if c and c[0] == 'bin' and c[1] == 'Add':
+                out.append(names(c, set()))
+            for x in c:
+                sums(x, out)
+        return out
+    for b, t in grows:
+        a = RL.norm(core.strip_var_ids(body.canon_op(t['args'][1])), rp.path)
+        ss = sums(a, [])
+        has_max = 'max' in core.show(a)
+        okO = any({'original_base_pos', 'original_count'} <= x for x in ss)
+        okR = any({'recovery_base_pos', 'recovery_count'} <= x for x in ss)
+        if has_max and okO and okR:
+            ctx.ok(R, '%s@%s' % (rp.path, cfg), {'grown_to': core.show(a)[:160]})
+        else:
+            ctx.violation(R, 'bitmap-size', '%s grows the received bitmap to `%s`, which is not max(original_base_pos + original_count, recovery_base_pos + recovery_count): some position of a supported configuration may not fit'
+                          % (rp.path, core.show(a)[:160]), site=t['line'], fn=rp.path, cfg=cfg)
+
+
+def table_passes_cover(ctx, facts, cfg):
+    """C08.f.  `for i in A..B { t[i] = .. t[i] .. }` with t: [X; N] (directly, boxed or borrowed): A must be 0 and B must be N,
+    after folding the crate's integer constants."""
+    R = 'C08.f-table-passes-cover-the-table'
+    consts = {x['path']: x['val'] for x in facts.other_items if 'val' in x}
+
+    def fold(c):
+        if not isinstance(c, tuple):
+            return None
+        if c[0] == 'const' and isinstance(c[1], int):
+            return c[1]
+        if c[0] == 'def' and c[1] in consts:
+            return consts[c[1]]
+        if c[0] == 'cast':
+            return fold(c[-1]) if isinstance(c[-1], tuple) else fold(c[1])
+        if c[0] == 'bin' and len(c) == 4:
+            a, b = fold(c[2]), fold(c[3])
+            if a is None or b is None:
+                return None
+            try:
+                return {'Add': a + b, 'Sub': a - b, 'Mul': a * b, 'Shl': a << b, 'Shr': a >> b, 'Div': a // b if b else None}.get(c[1])
+            except Exception:
+                return None
+        return None
+    n = 0
+    for p, fn in sorted(facts.fns.items()):
+        if not fn.hir:
+            continue
+        for node, _ in core.hir_find(fn.hir, lambda m: m.get('k') == 'match' and m.get('source') == 'ForLoopDesugar'):
+            fl = core.for_loop_parts(node)
+            if not fl:
+                continue
+            pat, it, body = fl
+            rg = core.is_range_struct(it)
+            if rg is None or rg[0] is None or rg[1] is None or pat.get('k') != 'bind':
+                continue
+            body0 = core.strip_refs(body)
+            stmts = list(body0.get('stmts', [])) + ([{'k': 'expr', 'e': body0['tail']}] if body0.get('tail') is not None else [])
+            if len(stmts) != 1 or stmts[0].get('k') != 'expr':
+                continue
+            a = core.strip_refs(stmts[0]['e'])
+            if a.get('k') != 'assign':
+                continue
+            lhs = core.strip_refs(a['l'])
+            if lhs.get('k') != 'index':
+                continue
+            idx = core.strip_refs(lhs['idx'])
+            base = core.strip_refs(lhs['base'])
+            while base.get('k') == 'un' and base.get('op') == 'Deref':
+                base = core.strip_refs(base['x'])
+            if not (idx.get('k') == 'path' and idx.get('id') == pat['id'] and base.get('k') == 'path' and base.get('res') == 'local'):
+                continue
+            # the right-hand side reads the same element
+            same = core.hir_find(a['r'], lambda m: m.get('k') == 'index' and core.strip_refs(m['idx']).get('id') == pat['id']
+                                 and _root_local(m['base']) == base.get('id'))
+            if not same:
+                continue
+            m_ = re.search(r'\[[^;\[\]]+; (\d+)\]', base.get('ty') or '')
+            if not m_:
+                continue
+            N = int(m_.group(1))
+            n += 1
+            A, B = fold(hcanon_cast(rg[0])), fold(hcanon_cast(rg[1]))
+            if rg[2] and B is not None:
+                B += 1
+            if A == 0 and B == N:
+                ctx.ok(R, '%s:%s@%s' % (p, base.get('name'), cfg), {'table': base.get('ty'), 'range': '0..%d' % N})
+            else:
+                ctx.violation(R, 'partial-pass:%s' % base.get('name'), 'in %s the in-place pass over `%s` (%s) runs over %s..%s instead of 0..%d: the entries left out keep their unconverted values'
+                              % (p, base.get('name'), base.get('ty'), A, B, N), site=node.get('line') or fn.span, fn=p, cfg=cfg)
+    ctx.floor(R, 2, n, 'in-place passes over fixed-size tables', cfg=cfg)
+
+
+def _root_local(e):
+    e = core.strip_refs(e)
+    while isinstance(e, dict) and e.get('k') == 'un' and e.get('op') == 'Deref':
+        e = core.strip_refs(e['x'])
+    return e.get('id') if isinstance(e, dict) and e.get('k') == 'path' else None
+
+
+def hcanon_cast(e):
+    return core.hcanon(e)
